@@ -99,6 +99,11 @@ class MetaRunner(object):
         except BaseException:
             await asyncio.shield(self._aclose_runners(runner_tasks))
             raise
+        else:
+            # The runners were stopped one after the other: payloads adopted by the
+            # cleanup of another runner's payloads may have arrived after their own
+            # runner had closed. Close again so that they are cancelled as well.
+            await asyncio.shield(self._aclose_runners(runner_tasks))
         finally:
             self.running.clear()
 
